@@ -19,8 +19,11 @@ for d in sorted(glob.glob(os.path.join(ROOT, "seeded", "*"))):
     summ = (m.get("summary") or "").replace("|", "/").replace("\n", " ")
     if len(summ) > 230:
         summ = summ[:227] + "..."
-    rows.append("| %s | %s | %s | %s |" % (name, summ, ("yes (%ss)" % int(own.get("wall_s", 0))) if own.get("detected") else "NO", ", ".join(others) + ((" (inconclusive: " + ", ".join(incon) + ")") if incon else "")))
-table = "| change | what it does | caught by its own property's quick check | also caught by |\n|---|---|---|---|\n" + "\n".join(rows) + "\n"
+    neutral = m.get("status") == "neutralised"
+    owncell = "n/a (no longer a violation: see status_note)" if neutral else (("yes (%ss)" % int(own.get("wall_s", 0))) if own.get("detected") else "NO")
+    fr = m.get("first_run"); first = "-" if fr is None else ("yes" if fr.get("detected") else "no")
+    rows.append("| %s | %s | %s | %s | %s |" % (name, summ, first, owncell, ", ".join(others) + ((" (inconclusive: " + ", ".join(incon) + ")") if incon else "")))
+table = "| change | what it does | caught at first run (wave 3: before the change was looked at) | caught by its own property's quick check now | also caught by (columns of tools/matrix.sh) |\n|---|---|---|---|---|\n" + "\n".join(rows) + "\n"
 p = os.path.join(ROOT, "DESIGN.md")
 s = open(p).read()
 a, b = "<!-- SEEDED-TABLE-BEGIN -->", "<!-- SEEDED-TABLE-END -->"
